@@ -206,6 +206,10 @@ type Q struct {
 	KeepFailpoints bool
 	// LastBlocks: after a successful Reach, the sequence of blocks of the witness path.
 	LastBlocks []*ssa.BasicBlock
+	// NoHelpers disables the helper summary of NoPass (see helperMustPass)
+	NoHelpers   bool
+	depth       int
+	helperCache map[*ssa.Function]bool
 }
 
 // Step is one element of a witness path.
@@ -335,6 +339,41 @@ func effCond(ifi *ssa.If, env *phiEnv) (ssa.Value, bool, bool, bool) {
 	return v, neg, false, false
 }
 
+// helperMustPass: `in` calls an unexported function of the same package all of whose paths from
+// entry to a return pass an instruction matching q.NoPass (so that extracting a block into a private
+// helper does not hide it from must-pass rules). Depth-limited, cached per query.
+func (q *Q) helperMustPass(in ssa.Instruction) bool {
+	if q.NoHelpers || q.depth >= 2 {
+		return false
+	}
+	ci, ok := in.(*ssa.Call)
+	if !ok {
+		return false
+	}
+	g := ci.Call.StaticCallee()
+	if g == nil || len(g.Blocks) == 0 || g == q.Fn || q.Fn == nil {
+		return false
+	}
+	top := q.Fn
+	for top.Parent() != nil {
+		top = top.Parent()
+	}
+	if g.Pkg == nil || g.Pkg != top.Pkg || g.Object() == nil || g.Object().Exported() {
+		return false
+	}
+	if q.helperCache == nil {
+		q.helperCache = map[*ssa.Function]bool{}
+	}
+	if v, ok := q.helperCache[g]; ok {
+		return v
+	}
+	q.helperCache[g] = false // cycles
+	sub := &Q{Fn: g, NoPass: q.NoPass, NoEdge: q.NoEdge, depth: q.depth + 1, helperCache: q.helperCache}
+	found, _, _ := sub.Reach(nil, IsReturn)
+	q.helperCache[g] = !found
+	return !found
+}
+
 // Reach searches a path from `from` (exclusive; nil = function entry) to an instruction
 // satisfying target. It returns found and the branch decisions taken along one shortest path.
 func (q *Q) Reach(from ssa.Instruction, target func(ssa.Instruction) bool) (bool, []Step, ssa.Instruction) {
@@ -419,7 +458,7 @@ func (q *Q) reach(b0 *ssa.BasicBlock, idx0 int, target func(ssa.Instruction) boo
 				q.LastBlocks = rev
 				return true, mk(qi), in
 			}
-			if (q.NoPass != nil && q.NoPass(in)) || IsNoReturn(in) {
+			if (q.NoPass != nil && (q.NoPass(in) || q.helperMustPass(in))) || IsNoReturn(in) {
 				stopped = true
 				break
 			}
@@ -476,7 +515,11 @@ func (p *Prog) Witness(steps []Step) string {
 		if s.True {
 			t = "T"
 		}
-		sb = append(sb, fmt.Sprintf("%s=%s", p.InstrPos(s.If), t))
+		at := p.EdgeAtom(Edge{If: s.If, True: s.True})
+		if len(at) > 90 {
+			at = at[:90] + "…"
+		}
+		sb = append(sb, fmt.Sprintf("%s=%s[%s]", p.InstrPos(s.If), t, at))
 	}
 	if len(sb) > 14 {
 		sb = append(sb[:7], append([]string{"…"}, sb[len(sb)-6:]...)...)
